@@ -106,7 +106,7 @@ M = {
         ("borrowed parameter may be consumed", _lc,
          "        if is_inout_var(node.place) and not is_inout_arg:", "        if is_inout_var(node.place) and is_inout_arg:", "R-C06.2"),
         ("use recorded as MOVE whatever the kind", _lc,
-         "                self.scope.use(x, node, use_kind)", "                self.scope.use(x, node, UseKind.MOVE)", "R-C06.2"),
+         "                    raise GuppyError(err)\n                self.scope.use(x, node, use_kind)", "                    raise GuppyError(err)\n                self.scope.use(x, node, UseKind.MOVE)", "R-C06.2"),
         ("benign: visit_PlaceNode with the re-borrow test inlined", _lc,
          "        is_inout_arg = use_kind == UseKind.BORROW\n        if is_inout_var(node.place) and not is_inout_arg:",
          "        reborrowed = use_kind is UseKind.BORROW\n        is_inout_arg = reborrowed\n        if not reborrowed and is_inout_var(node.place):", None),
